@@ -421,7 +421,8 @@ def installed():
                 return orig(self, packed)
             hs = isinstance(wire, M.QMI_InitialHandshakeMessage)
             if hs:
-                rec = t.add(f"in {i} {cid} hs {wire.source_address.context_id} {1 if wire.is_server_handshake else 0}")
+                nm = wire.source_address.context_id
+                rec = t.add(f"in {i} {cid} hs {nm if isinstance(nm, str) else '~'} {1 if wire.is_server_handshake else 0}")
             else:
                 rec = t.add(f"in {i} {cid} {msg_line(wire)}")
             st = t.stack()
@@ -435,7 +436,8 @@ def installed():
                     rec[1] = "exc:QMI_MessageDeliveryException:" + ("dest" if "Unexpected destination" in s else
                                                                     "source" if "Unexpected source" in s else "other")
                 else:
-                    why = ("unexpected-handshake" if "Unexpected handshake" in s else
+                    why = ("invalid-context-name" if "Invalid context name" in s else
+                           "unexpected-handshake" if "Unexpected handshake" in s else
                            "expecting-handshake" if "Expecting handshake" in s else
                            "server-handshake-from-client" if "server handshake from" in s else
                            "client-handshake-as-client" if "client handshake while" in s else "other")
